@@ -564,7 +564,7 @@ pub fn line_text_pairs(rng: &mut Rng, thorough: bool) -> Vec<(Vec<u8>, Vec<u8>)>
         v.push((a.into_bytes(), b.into_bytes()));
     }
     // scale: three-, four- and five-digit line numbers, hunks far apart, and long lines
-    let sizes: Vec<usize> = if thorough { vec![120, 130, 1100, 1200, 10100, 10200] } else { vec![120, 1100, 10100] };
+    let sizes: Vec<usize> = if thorough { vec![120, 130, 1100, 1200, 10100] } else { vec![120, 1100, 10100] };
     for n in sizes {
         let a = textgen::random_lines(rng, n, 3);
         let e = rng.range(2, 8);
